@@ -14,11 +14,13 @@ package sim
 // false positives.
 
 import (
+	"archive/zip"
 	"bytes"
 	"encoding/binary"
 	"encoding/hex"
 	"encoding/json"
 	"fmt"
+	"io"
 	"math/rand/v2"
 	"net/http/httptest"
 	"os"
@@ -215,7 +217,14 @@ func raceRun(t *testing.T, rng *rand.Rand, dir string) {
 					}
 					cli.Close()
 				case 10:
-					get("/api/v1/archive")
+					req := httptest.NewRequest("GET", "/api/v1/archive", nil)
+					rec := httptest.NewRecorder()
+					s.VerifHandler().ServeHTTP(rec, req)
+					if rec.Code == 200 {
+						if why := archiveAligned(rec.Body.Bytes()); why != "" {
+							fmt.Printf("RACE-MODE-VIOLATION C14.prefix@concurrent-writers an archive taken while reports and authorizations were being written is not record-aligned: %s\n", why)
+						}
+					}
 				case 11:
 					if gr.IntN(4) == 0 && !strong {
 						glow.SetCurrentTimeslot(glow.CurrentTimeslot() + uint32(1+gr.IntN(3300)))
@@ -341,4 +350,36 @@ func raceRunC07(t *testing.T, rng *rand.Rand, dir string) {
 	}
 	cur = nil
 	time.Sleep(4 * time.Second)
+}
+
+// archiveAligned checks that the append-only files of an archive hold whole
+// records (80 / 148 bytes, parsable weekly records).
+func archiveAligned(body []byte) string {
+	zr, err := zip.NewReader(bytes.NewReader(body), int64(len(body)))
+	if err != nil {
+		return "not a zip file"
+	}
+	for _, f := range zr.File {
+		rc, err := f.Open()
+		if err != nil {
+			return "cannot open " + f.Name
+		}
+		b, _ := io.ReadAll(rc)
+		rc.Close()
+		switch f.Name {
+		case "equipment-reports.dat":
+			if len(b)%80 != 0 {
+				return fmt.Sprintf("equipment-reports.dat has %d bytes", len(b))
+			}
+		case "equipment-authorizations.dat":
+			if len(b)%148 != 0 {
+				return fmt.Sprintf("equipment-authorizations.dat has %d bytes", len(b))
+			}
+		case "allDeviceStats.dat":
+			if _, err := ParseStatsFile(b); err != nil {
+				return "allDeviceStats.dat: " + err.Error()
+			}
+		}
+	}
+	return ""
 }
